@@ -192,7 +192,10 @@ def make_worker(tier):
     from fcp.error import Logger
     from fcp.result import Ok, Err
 
+    # 10 s of the worker's own CPU time (ITIMER_PROF), so that a loaded machine cannot turn a slow parse into a 'hang';
+    # a wall-clock alarm of 120 s stays as the backstop for a parse that blocks without computing
     signal.signal(signal.SIGALRM, _alarm)
+    signal.signal(signal.SIGPROF, _alarm)
 
     def check_result(S, family, label, text, res, logger, via):
         inp = {"text": text, "family": family, "case": label, "via": via}
@@ -241,18 +244,21 @@ def make_worker(tier):
         S.count("states")
         S.count("transitions")
         logger = Logger({})
-        signal.alarm(10)
+        signal.setitimer(signal.ITIMER_PROF, 10.0)
+        signal.alarm(120)
         try:
             if via == "string":
                 res = get_fcp_from_string(text, logger)
             else:
                 res = get_fcp(via, logger)
+            signal.setitimer(signal.ITIMER_PROF, 0)
             signal.alarm(0)
         except Timeout:
             S.add("outcomes", "timeout")
-            S.violation("C11.terminate", "C11.terminate/timeout-10s/%s" % family, {"text": text, "family": family, "case": label}, expected="terminates", actual="still running after 10 s")
+            S.violation("C11.terminate", "C11.terminate/timeout-10s/%s" % family, {"text": text, "family": family, "case": label}, expected="terminates", actual="still running after 10 s of CPU time")
             return
         except Exception as e:  # noqa
+            signal.setitimer(signal.ITIMER_PROF, 0)
             signal.alarm(0)
             S.add("outcomes", "exception:" + type(e).__name__)
             S.add("nontrivial", text if len(text) < 200 else common.sha(text))
@@ -261,6 +267,7 @@ def make_worker(tier):
             S.violation("C11.total", "C11.total/exception-escapes/%s/%s" % (kind, _site(inner if inner is not None else e)), {"text": text, "family": family, "case": label, "via": "string" if via == "string" else "file"}, expected="Ok or Err", actual="%s: %s" % (kind, str(e)[:300]))
             return
         finally:
+            signal.setitimer(signal.ITIMER_PROF, 0)
             signal.alarm(0)
         check_result(S, family, label, text, res, logger, "string" if via == "string" else "file")
 
@@ -408,7 +415,7 @@ def run(tier):
         "length bound after a valid preamble (and up to 3 with none), every literal slot x every value form, every param name x arity, and the same inside an imported module. "
         "Each is one execution of the real parser (+ Logger.error on Err); plus every sequence of parses (7 texts, length <= 3/4) through ONE Logger object (fork-snapshot). non-trivial = distinct inputs that are not accepted." % len(MUT_TOKENS)
     )
-    r.assumptions = ["termination is decided within an alarm of 10 s per input"]
+    r.assumptions = ["termination is decided within 10 s of CPU time per input (wall-clock backstop 120 s)"]
     return r.finish()
 
 
